@@ -70,6 +70,18 @@ def generate(ctx):
                 ops.append(["drop_trainer", t])
             else:
                 ops.append(["listings", t])
+        if rng.random() < 0.35:
+            # directed prefix around pooling: two cells of the Biclique layer that share a neuron (0,1 share n0; 2,3 share n1)
+            # or a connection get the same probe, one of them is then replaced (unique) / deleted / its cell removed
+            t0 = 0
+            a, b = rng.choice([(0, 1), (2, 3), (0, 2), (1, 3)])
+            attr = rng.choice(["neuron.spike", "neuron.voltage"]) if (a, b) in ((0, 1), (2, 3)) else "connection.synspike"
+            pre = [["register_cell", t0, a], ["register_cell", t0, b], ["add_monitor", t0, a, attr, 0, False],
+                   ["add_monitor", t0, b, attr, 0, False], ["layer_step", "bi"]]
+            pre.append(rng.choice([["add_monitor", t0, b, attr, 0, True], ["del_monitor", t0, b, 0], ["del_cell", t0, b],
+                                   ["replace_trainer_monitor", t0, b]]))
+            pre += [["layer_step", "bi"], ["layer_step", "bi"], ["trainer_step", t0]]
+            ops = pre + ops
         yield {"kinds": kinds, "ops": ops, "seed": rng.randrange(1 << 30), "cells": cells}
 
 
@@ -189,6 +201,17 @@ def run_case(ctx, desc):
                     reducer=PassthroughReducer(1.0, duration=0.0, inclusive=True), as_prehook=False, train_update=True,
                     eval_update=False, prepend=True), uniq, probe=attr)
                 probes[ti][(name_of(ci), pname)] = attr
+            elif k == "replace_trainer_monitor":
+                ci = op[2]
+                if name_of(ci) not in reg[ti] or tk == "LinearHomeostasis":
+                    return None
+                ctx.case(f"replace_trainer_monitor/{tk}/{cells[ci][0]}")
+                ctx.count("trainer_monitor_replacements")
+                trainers[ti].add_monitor(name_of(ci), "spike_post", "neuron.spike", StateMonitor.partialconstructor(
+                    reducer=(observe.EventReducer(1.0, lambda x: x.bool(), "nan", 0.0) if "Kernel" in tk or "DelayAdjusted" in tk
+                             else PassthroughReducer(1.0, duration=0.0, inclusive=True)),
+                    as_prehook=False, train_update=True, eval_update=False, prepend=True), True)
+                seen[ti][name_of(ci)] = 0
             elif k == "del_monitor":
                 ci, pi = op[2], op[3]
                 key = (name_of(ci), f"probe{pi}")
